@@ -344,7 +344,7 @@ func c15Specs(tier string) []*h.SeqSpec {
 				Conf:     &h.Conf{Name: store, Store: store, Mod: st.mod},
 				Init:     st.init,
 				Ops:      ops,
-				MaxDepth: 1,
+				MaxDepth: map[bool]int{false: 1, true: 2}[tier == "thorough"], // thorough: every request again from every distinct state one request leaves behind
 				Chunk:    1,
 			})
 		}
@@ -359,7 +359,12 @@ func c15Judge(w *h.World, rq c15Req, r h.Resp, logStart int) []h.Violation {
 	if r.Panic != "" {
 		return nil // reported by the DSL
 	}
-	cls := rq.label
+	cls := strings.ReplaceAll(rq.label, " ", "_")
+	// the code named for a condition is only demanded for the first request from a start state: a request after
+	// another one meets whatever that one left behind (an ended session, deleted content), and then another code is right
+	if len(w.Hist) > 1 {
+		rq.codes = nil
+	}
 	if r.Status == 416 && rq.req.Header["Range"] != "" {
 		cls = "unsatisfiable-Range-on-content"
 	}
@@ -463,7 +468,7 @@ func init() {
 	h.RegisterSeq(&h.SeqCheck{
 		ID:    "C15",
 		Level: "model_checking",
-		Rule: "every request of a grammar (8 methods x every route x repository names inside and outside the OCI grammar incl. reserved, upper case, 300 characters, empty and dot segments x references, digests, session ids, state tokens, ranges, n/last, page/cache, digest and mount parameters at and beyond their bounds x bodies and Content-Types) is executed from each of 4-5 repository states (empty, populated, open sessions incl. one with a declared digest, paged referrers, converted layout with the referrers API disabled) on both stores, each on a fresh instance; " +
+		Rule: "every request of a grammar (8 methods x every route x repository names inside and outside the OCI grammar incl. reserved, upper case, 300 characters, empty and dot segments x references, digests, session ids, state tokens, ranges, n/last, page/cache, digest and mount parameters at and beyond their bounds x bodies and Content-Types) is executed from each of 4-5 repository states (empty, populated, open sessions incl. one with a declared digest, paged referrers, converted layout with the referrers API disabled) on both stores, each on a fresh instance; in the thorough tier every request is sent again from every distinct state that one request leaves behind (depth 2: ended sessions, deleted content, half-written uploads), with the condition-specific code only demanded for first requests; " +
 			"oracle: no panic, status < 500, error bodies are OCI error documents with a registered code (and the code named for the condition where the condition is unambiguous), only names of the grammar reach the store or the filesystem; non-trivial = request answered with a 4xx or a state change",
 		Assume: []string{"storage is healthy throughout", "the expected code is only demanded where the condition is unambiguous (lists in the check source)"},
 		Specs:  c15Specs,
